@@ -67,6 +67,8 @@ func RTNativeX(pkg string, doc, bolt bool) string {
 	"fmt"
 	"math"
 	"runtime"
+	"sync"
+	"time"
 `)
 	if doc {
 		sb.WriteString("\t\"github.com/vmihailenco/msgpack/v5\"\n")
@@ -97,7 +99,27 @@ func verifF64(u uint64) float64 { return math.Float64frombits(u) }
 func verifF32(u uint32) float32 { return math.Float32frombits(u) }
 func verifAssumeFailed()        { panic(verifAssumeFail{}) }
 func verifAssertFailed(label string) { panic(verifAssertFail{label}) }
-func verifYield()               { runtime.Gosched() }
+// native yield: a random short pause so that repeated (stress) replays of a schedule-dependent
+// counterexample cover different interleavings around harness-owned code
+var verifRng uint64 = 0x9E3779B97F4A7C15
+var verifRngMu sync.Mutex
+
+func verifYield() {
+	verifRngMu.Lock()
+	verifRng ^= verifRng << 13
+	verifRng ^= verifRng >> 7
+	verifRng ^= verifRng << 17
+	r := verifRng
+	verifRngMu.Unlock()
+	switch r % 4 {
+	case 0:
+		runtime.Gosched()
+	case 1:
+		time.Sleep(time.Duration(r>>8%200) * time.Microsecond)
+	case 2:
+		time.Sleep(time.Duration(r>>8%2000) * time.Microsecond)
+	}
+}
 func verifParam(name string, def int) int {
 	if v, ok := verifParams[name]; ok {
 		return int(v)
